@@ -24,6 +24,9 @@ CHECKS = {
  "C18": dict(cat="proof", tech="machine-checked proof in Coq over tables translated from the source on every run + exhaustive endpoint correspondence",
    text="11 Coq theorems re-checked against role/dispatch/debug tables that a translator regenerates from control.rs, control/handlers/*.rs and security.rs on every run: every dispatcher request type outside a reviewed read-only list requires more than viewer for all parameter shapes; for every request string, credential and configuration a handler runs only with a sufficient role; invalid credentials get a bare 'unauthorized' when a token is configured; debug-class requests are refused while debugging is off; unknown types reach no handler; role order total/monotone; pairing is admin-gated and a claim mints at most Engineer. The gate model is tied to the real endpoint exhaustively (all request types x 8 credentials x 4 configurations x parameter shapes + garbled lines) over the unix-socket control server with state probes.",
    note="Translator (translators/c18_roles.py) is trusted; handlers run against a stub resource; TCP/web transports share handle_request_value and are not exercised separately."),
+ "C10": dict(cat="proof", tech="machine-checked proof in Coq + extracted-model/implementation correspondence + strace-captured save protocol with materialised crash states",
+   text="8 Coq theorems: decode(encode(s)) = s for every well-formed snapshot (all value shapes, arbitrary nesting up to the limit, any valid UTF-8 names; mutual induction over values, element lists and field lists); the temp-file + fsync + rename protocol leaves the old or the new contents at every crash prefix incl. cut writes, while truncate-in-place is refuted; decoded values never nest deeper than the limit; capacity reservations never exceed the remaining bytes, the unbounded reservation is refuted. Tied to retain.rs through FileRetainStore::store/load on generated snapshots and hostile files (under an address-space limit), and by capturing the real syscall sequence of store() with strace, materialising every crash state on disk and loading it with the real code.",
+   note="Kernel crash semantics beyond 'a prefix of the issued syscalls survives' are assumed, not modelled."),
 }
 REASON_TODO = "check not built yet (work in progress; see DESIGN.md §5 order of work)"
 NA = {}
